@@ -92,22 +92,29 @@ type seqIterator struct {
 
 // Next proceeds to the next element of the sequence and returns true if there's such an element.
 func (i *seqIterator) Next() bool {
-	switch s := i.Env.Resolve(i.Seq).(type) {
-	case nil:
-		return false
-	case Compound:
-		if s.Functor() != atomComma || s.Arity() != 2 {
+	for {
+		switch s := i.Env.Resolve(i.Seq).(type) {
+		case nil:
+			return false
+		case Compound:
+			if s.Functor() != atomComma || s.Arity() != 2 {
+				i.current = s
+				i.Seq = nil
+				return true
+			}
+			// ((A, B), C) is the sequence A, B, C: a conjunction on the left is not an element of its own.
+			if l, ok := i.Env.Resolve(s.Arg(0)).(Compound); ok && l.Functor() == atomComma && l.Arity() == 2 {
+				i.Seq = atomComma.Apply(l.Arg(0), atomComma.Apply(l.Arg(1), s.Arg(1)))
+				continue
+			}
+			i.Seq = s.Arg(1)
+			i.current = s.Arg(0)
+			return true
+		default:
 			i.current = s
 			i.Seq = nil
 			return true
 		}
-		i.Seq = s.Arg(1)
-		i.current = s.Arg(0)
-		return true
-	default:
-		i.current = s
-		i.Seq = nil
-		return true
 	}
 }
 
